@@ -374,7 +374,7 @@ func c13Process(rep *Report) {
 		fan := event.NewFanOut()
 		tr := tracing.NewTracer(ctx0)
 		b := event.DefinitionInstanceBuildingChain(timer.EventDefinitionInstanceBuilder(ctx0, fan, tr))
-		in, err := StartInst(defs, InstOpt{Opts: []bpmn.Option{bpmn.WithContext(ctx0), bpmn.WithTracer(tr),
+		in, err := StartInst(defs, InstOpt{ForeignTracer: true, Opts: []bpmn.Option{bpmn.WithContext(ctx0), bpmn.WithTracer(tr),
 			bpmn.WithProcessEventDefinitionInstanceBuilder(b), bpmn.WithEventEgress(fan), bpmn.WithEventIngress(fan)}})
 		must(err)
 		listening := false
@@ -446,7 +446,7 @@ func c13Process(rep *Report) {
 		tr := tracing.NewTracer(ctx0)
 		b := event.DefinitionInstanceBuildingChain(timer.EventDefinitionInstanceBuilder(ctx0, fan, tr))
 		mk := func() *Inst {
-			in, err := StartInst(defs, InstOpt{Opts: []bpmn.Option{bpmn.WithContext(ctx0), bpmn.WithTracer(tracing.NewTracer(ctx0)),
+			in, err := StartInst(defs, InstOpt{ForeignTracer: true, Opts: []bpmn.Option{bpmn.WithContext(ctx0), bpmn.WithTracer(tracing.NewTracer(ctx0)),
 				bpmn.WithProcessEventDefinitionInstanceBuilder(b), bpmn.WithEventEgress(fan), bpmn.WithEventIngress(fan)}})
 			must(err)
 			return in
